@@ -32,7 +32,7 @@ ENTRIES = {'single': ['send', 'call', '__call__', 'proxy'], 'notification': ['se
            'batch': ['send', 'batch.call', 'batch.proxy()', 'batch.proxy.call']}
 
 
-TRACER_STYLES = ['full', 'full', 'super', 'partial', 'logging-first', 'instance-hooks', 'logging-subclass-last']
+TRACER_STYLES = ['full', 'full', 'super', 'partial', 'logging-first', 'instance-hooks', 'logging-subclass-last', 'logging-twice']
 
 
 def strategy_for(n: int) -> Dict[str, Any]:
@@ -64,7 +64,7 @@ class C19(Check):
                         'kind/notification', 'client/sync', 'client/async', 'attempts>=2', 'outcome/base-exc', 'outcome/identity',
                         'outcome/not-json', 'outcome/not-response', 'entry/send', 'entry/call', 'entry/proxy', 'entry/notify',
                         'entry/batch.call', 'entry/batch.proxy()', 'entry/batch.proxy.call', 'caller/inside-except-block',
-                        'tracer-style/super', 'tracer-style/partial', 'tracer-style/logging-first', 'tracer-style/instance-hooks', 'tracer-style/logging-subclass-last', 'strict/on', 'strict/off']
+                        'tracer-style/super', 'tracer-style/partial', 'tracer-style/logging-first', 'tracer-style/instance-hooks', 'tracer-style/logging-subclass-last', 'tracer-style/logging-twice', 'strict/on', 'strict/off']
 
     def _words(self, maxn: int, shard: int = 0, nshards: int = 1):
         i = 0
@@ -78,7 +78,7 @@ class C19(Check):
                     yield {'client': client, 'request': rk, 'tracers': (i // 3) % 4,
                            'ctx': ['caller', 'default'][(i // 12) % 2], 'strategy': strategy_for(n) if n or i % 5 else None,
                            'outcomes': list(word), 'entry': ENTRIES[rk][(i // 7) % len(ENTRIES[rk])], 'in_handler': i % 5 == 0,
-                           'tracer_style': TRACER_STYLES[(i // 3) % len(TRACER_STYLES)], 'strict': (i // 2) % 4 != 0}
+                           'tracer_style': TRACER_STYLES[(i // 3) % len(TRACER_STYLES)], 'strict': (i // 2) % 4 != 0, 'base_exc': i // 2}
 
     def enumerate(self, tier: str):
         return self._words(2) if tier == 'quick' else None
@@ -96,7 +96,7 @@ class C19(Check):
     def strategy(self, tier: str):
         return st.builds(
             lambda c, r, t, x, n, o, e: {'client': c, 'request': r, 'tracers': t, 'ctx': x, 'strategy': strategy_for(n) if n is not None else None, 'outcomes': o,
-                                         'strict': (e + t + len(o[0])) % 3 != 0,
+                                         'strict': (e + t + len(o[0])) % 3 != 0, 'base_exc': e + t,
                                          'entry': ENTRIES[r][e % len(ENTRIES[r])], 'in_handler': e >= 8, 'tracer_style': TRACER_STYLES[(e + t) % len(TRACER_STYLES)]},
             st.sampled_from(['sync', 'async']), st.sampled_from(['single', 'batch', 'notification']), st.integers(0, 3),
             st.sampled_from(['caller', 'default']), st.sampled_from([None, 0, 1, 2, 3]), st.lists(st.sampled_from(NAMES), min_size=4, max_size=4),
@@ -129,7 +129,11 @@ class C19(Check):
                 raised[k] = ch.EXC[o['exc']](f"attempt {k}")
                 raise raised[k]
             if o['kind'] == 'base':
-                raised[k] = ch.EXC['CancelledError' if kind == 'async' else 'HarnessBaseExc'](f"attempt {k}")
+                # a BaseException that is no Exception: cancellation on the async side; on the sync side a harness class, an interrupt,
+                # an exit request or a generator being closed (the interrupt / exit classes are not raised inside the event loop, which
+                # treats them specially)
+                names_ = ['CancelledError', 'HarnessBaseExc'] if kind == 'async' else ['HarnessBaseExc', 'KeyboardInterrupt', 'SystemExit', 'GeneratorExit']
+                raised[k] = ch.EXC[names_[spec.get('base_exc', 0) % len(names_)]](f"attempt {k}")
                 raise raised[k]
             if o['kind'] in ('body', 'notify-body', 'ok-body'):
                 return o['body']
@@ -150,11 +154,16 @@ class C19(Check):
 
         log: List[List[Any]] = []
         style = spec.get('tracer_style', 'full')
-        tracers = ch.make_tracers(spec['tracers'], log, 'full' if style == 'logging-first' else style)
+        tracers = ch.make_tracers(spec['tracers'], log, 'full' if style in ('logging-first', 'logging-twice') else style)
         if style == 'logging-first' and tracers:
             # the library's own LoggingTracer configured ahead of the application's tracers (it is not recorded; it must not disturb them)
             from pjrpc.client.tracer import LoggingTracer
             tracers = [LoggingTracer()] + tracers
+        if style == 'logging-twice' and tracers:
+            # two of the library's LoggingTracers (one per logger / level) around the application's tracers
+            import logging as _logging
+            from pjrpc.client.tracer import LoggingTracer
+            tracers = [LoggingTracer()] + tracers + [LoggingTracer(logger=_logging.getLogger('pjrpc.client.audit'), level=_logging.INFO)]
         partial = style == 'partial'
         kwargs: Dict[str, Any] = {'tracers': tracers}
         if not strict:
@@ -215,7 +224,7 @@ class C19(Check):
         import contextlib
         from pbt import serverharness as sh
         # with the library's LoggingTracer configured, the library loggers run at DEBUG (its records are really produced and formatted)
-        with ch.captured_sleeps(), (sh.debug_logging() if style in ('logging-first', 'logging-subclass-last') else contextlib.nullcontext()):
+        with ch.captured_sleeps(), (sh.debug_logging() if style in ('logging-first', 'logging-subclass-last', 'logging-twice') else contextlib.nullcontext()):
             try:
                 value, exc = ch.call(kind, fn), None
             except BaseException as e:  # noqa
